@@ -405,11 +405,15 @@ func (r *pqRun) checkAll(m *pqModel, rng *rand.Rand) {
 		if v, ok := r.query("MinRow(field=s)"); ok {
 			if p, _ := v.(pilosa.Pair); p.ID != sRows[0] || p.Count == 0 {
 				r.fail([]string{"C16"}, "minrow", fmt.Sprintf("MinRow(field=s) = %+v, model row %d", v, sRows[0]))
+			} else if int(p.Count) != len(sortedCols(m.s[sRows[0]])) {
+				r.fail([]string{"C17"}, "minrow-count", fmt.Sprintf("MinRow(field=s) = %+v: row %d holds %d columns over all shards", v, sRows[0], len(sortedCols(m.s[sRows[0]]))))
 			}
 		}
 		if v, ok := r.query("MaxRow(field=s)"); ok {
 			if p, _ := v.(pilosa.Pair); p.ID != sRows[len(sRows)-1] || p.Count == 0 {
 				r.fail([]string{"C16"}, "maxrow", fmt.Sprintf("MaxRow(field=s) = %+v, model row %d", v, sRows[len(sRows)-1]))
+			} else if int(p.Count) != len(sortedCols(m.s[sRows[len(sRows)-1]])) {
+				r.fail([]string{"C17"}, "maxrow-count", fmt.Sprintf("MaxRow(field=s) = %+v: row %d holds %d columns over all shards", v, sRows[len(sRows)-1], len(sortedCols(m.s[sRows[len(sRows)-1]]))))
 			}
 		}
 	}
@@ -469,6 +473,60 @@ func (r *pqRun) checkAll(m *pqModel, rng *rand.Rand) {
 		}
 		if !(len(all) == 0 && len(wantG) == 0) && !reflect.DeepEqual(all, wantG) {
 			r.fail([]string{"C16"}, "groupby-offset-paging", fmt.Sprintf("GroupBy pages of %d concatenate to %v, unpaged model %v", lim, all, wantG))
+		}
+	}
+	// GroupBy whose Rows children carry limit / column / previous: the child row set is
+	// the one the same Rows query returns over the whole index (not per node).
+	groupsWhere := func(keep func(a uint64) bool) []string {
+		out := []string{}
+		for _, k := range gkeys {
+			if keep(k.a) {
+				out = append(out, fmt.Sprintf("%d/%d=%d", k.a, k.b, gcount[k]))
+			}
+		}
+		return out
+	}
+	for _, lim := range []int{1, 2} {
+		first := map[uint64]bool{}
+		for i, row := range sRows {
+			if i < lim {
+				first[row] = true
+			}
+		}
+		want := groupsWhere(func(a uint64) bool { return first[a] })
+		if got, ok := getGroups(fmt.Sprintf("GroupBy(Rows(s, limit=%d), Rows(m))", lim)); ok && !(len(got) == 0 && len(want) == 0) && !reflect.DeepEqual(got, want) {
+			r.fail([]string{"C16", "C17"}, "groupby-child-limit", fmt.Sprintf("GroupBy(Rows(s, limit=%d), Rows(m)) = %v, model %v (Rows(s) = %v)", lim, got, want, sRows))
+		}
+	}
+	for _, c := range pqCols[:3] {
+		want := groupsWhere(func(a uint64) bool { return m.s[a][c] })
+		if got, ok := getGroups(fmt.Sprintf("GroupBy(Rows(s, column=%d), Rows(m))", c)); ok && !(len(got) == 0 && len(want) == 0) && !reflect.DeepEqual(got, want) {
+			r.fail([]string{"C16", "C17"}, "groupby-child-column", fmt.Sprintf("GroupBy(Rows(s, column=%d), Rows(m)) = %v, model %v", c, got, want))
+		}
+	}
+	if len(sRows) > 1 {
+		prev := sRows[0]
+		want := groupsWhere(func(a uint64) bool { return a > prev })
+		if got, ok := getGroups(fmt.Sprintf("GroupBy(Rows(s, previous=%d), Rows(m))", prev)); ok && !(len(got) == 0 && len(want) == 0) && !reflect.DeepEqual(got, want) {
+			r.fail([]string{"C16"}, "groupby-child-previous", fmt.Sprintf("GroupBy(Rows(s, previous=%d), Rows(m)) = %v, model %v", prev, got, want))
+		}
+	}
+	if len(sRows) > 0 {
+		fr := sRows[len(sRows)-1]
+		want := []string{}
+		for _, k := range gkeys {
+			n := 0
+			for c, ok := range m.s[k.a] {
+				if ok && m.mHas[c] && m.m[c] == k.b && m.s[fr][c] {
+					n++
+				}
+			}
+			if n > 0 {
+				want = append(want, fmt.Sprintf("%d/%d=%d", k.a, k.b, n))
+			}
+		}
+		if got, ok := getGroups(fmt.Sprintf("GroupBy(Rows(s), Rows(m), filter=Row(s=%d))", fr)); ok && !(len(got) == 0 && len(want) == 0) && !reflect.DeepEqual(got, want) {
+			r.fail([]string{"C16"}, "groupby-filter", fmt.Sprintf("GroupBy(Rows(s), Rows(m), filter=Row(s=%d)) = %v, model %v", fr, got, want))
 		}
 	}
 	// ---- TopN with explicit ids (C12) ----
